@@ -196,7 +196,13 @@ func TestSim(t *testing.T) {
 			out.RunHashes[strconv.Itoa(idx)] = fmt.Sprintf("%016x-%016x-%d", res.TraceHash, res.SchedHash, len(res.Viol))
 		}
 		if len(res.Viol) > 0 && len(out.Violations) < 8 {
-			out.Violations = append(out.Violations, violationOut{Plan: p, Viol: res.Viol, Log: res.Log})
+			vp := p
+			if res.PlanFaults != nil {
+				cp := *p
+				cp.Faults = res.PlanFaults
+				vp = &cp
+			}
+			out.Violations = append(out.Violations, violationOut{Plan: vp, Viol: res.Viol, Log: res.Log})
 		}
 		if len(out.Samples) < 2 && res.Nontrivial {
 			lg := res.Log
@@ -231,4 +237,24 @@ func filterStacks(all string) string {
 		keep = keep[:6]
 	}
 	return strings.Join(keep, "\n\n")
+}
+
+// inBubble runs f in a fresh synctest bubble. The end-of-bubble complaint about connections the
+// service never released (see runPlan) is tolerated; anything else propagates.
+func inBubble(f func()) (leaked bool) {
+	completed := false
+	defer func() {
+		if r := recover(); r != nil {
+			if completed && strings.Contains(fmt.Sprint(r), "blocked goroutines remain") {
+				leaked = true
+				return
+			}
+			panic(r)
+		}
+	}()
+	synctest.Test(curT, func(t *testing.T) {
+		f()
+		completed = true
+	})
+	return false
 }
